@@ -25,7 +25,7 @@ func moreProps(m map[string]*propCfg) {
 	}
 	add(&propCfg{ID: "C03", Engine: "startsim", Level: "exploration", Families: []famShare{{gen.FamSubst, 0.9}, {gen.FamWrapName, 0.1}}, QProgs: 520, QK: 10, TProgs: 480, TK: 48,
 		Rule: "generated cyclic and acyclic programs with a wrap plan (per substituted component: early only, before-init only, after-init only, before-instantiation, early+after with the same or with different substitutes; 1-2 substituting processors of all order classes); K schedules each. Non-trivial = a substitute was actually returned by a callback in that run; distinct = distinct (program shape, registry path signature)."})
-	add(&propCfg{ID: "C05", Engine: "startsim", Level: "exploration", Families: []famShare{{gen.FamLife, 0.65}, {gen.FamWire, 0.2}, {gen.FamSubst, 0.15}}, QProgs: 520, QK: 8, TProgs: 480, TK: 48,
+	add(&propCfg{ID: "C05", Engine: "startsim", Level: "exploration", Families: []famShare{{gen.FamLife, 0.65}, {gen.FamWire, 0.2}, {gen.FamSubst, 0.15}}, QProgs: 800, QK: 8, TProgs: 480, TK: 48,
 		Rule: "generated DAGs / diamonds / cycles with tails, lazy-eager mixes, 1-4 observing post-processors of all classes and order classes, runners; K schedules each. Non-trivial = at least two Init events in the run; distinct = distinct (program shape, registry path signature)."})
 	add(&propCfg{ID: "C12", Engine: "startsim", Level: "exploration", Families: []famShare{{gen.FamLife, 0.7}, {gen.FamCfgMerge, 0.3}}, QProgs: 480, QK: 8, TProgs: 480, TK: 48,
 		Rule: "generated programs with post-processors, runners (and simulated loaders) of all three order classes with Order values incl. ties, negatives and extremes; arrival order at the sorter permuted by the schedule; plus direct calls of the sorter on generated multisets. Non-trivial = >= 2 participants of one kind; distinct = distinct (program shape, registry path signature)."})
@@ -43,7 +43,7 @@ func moreProps(m map[string]*propCfg) {
 	add(&propCfg{ID: "C15", Engine: "startsim", Level: "exploration", Families: []famShare{{gen.FamCfgMerge, 0.8}, {gen.FamConfig, 0.2}}, QProgs: 640, QK: 5, TProgs: 480, TK: 24,
 		Rule:      "generated configurations: 1-4 sources (raw documents, real FileLoader on files in the run's scratch directory, real ArgsLoader over a simulated argv, simulated loaders of all order classes) with overlapping and disjoint key trees, added through SetConfigLoader / AddConfigLoader / SetConfig / AddLoaders in a generated order; rare source faults (missing file, directory, garbage, loader error, empty). Non-trivial = >= 2 active fault-free sources; distinct = distinct (program shape, registry path signature).",
 		Technique: "deterministic simulation (startsim, configuration slice): real loaders and binder under generated source sets and option sequences, injected source faults; oracle: reference deep merge in contract order"})
-	add(&propCfg{ID: "C18", Engine: "startsim", Level: "exploration", Families: []famShare{{gen.FamConfig, 1}}, QProgs: 720, QK: 8, TProgs: 480, TK: 32,
+	add(&propCfg{ID: "C18", Engine: "startsim", Level: "exploration", Families: []famShare{{gen.FamConfig, 1}}, QProgs: 960, QK: 8, TProgs: 480, TK: 32,
 		Rule:      "generated components with configuration fields from a fixed menu (placeholder, placeholder with default, prop shorthand, #{${a}+${b}}, #{${a}*${b}}, prefix-bound int/struct, literal), each optionally with a validate constraint from a fixed menu, next to user instantiation-aware processors of all order classes; the arrival order of all processors at the unstable sorter is permuted by the schedule. Non-trivial = the program has an expression or a validated field; distinct = distinct (program shape, registry path signature).",
 		Assumes:   []string{"the value x constraint space is the menu's (small integers, identifiers, min/max/gte/required/eq/ne); the biconditional over arbitrary values and expressions is input generation, outside this technique"},
 		Technique: "deterministic simulation (startsim, configuration slice): schedule permutes the arrival order of built-in and user processors at the sorter; oracle: small menu evaluator (placeholder -> expression -> bind -> validate)"})
